@@ -163,6 +163,7 @@ def suite_fonts(ctx, res, n):
 
     cases = list(fontgen.gen_cases(ctx.rng, n, formats=["glyf_colr_1", "glyf_colr_0"], want_palette_indices=True))
     cases += [same_rgba_case(ctx.rng, ["glyf_colr_1", "glyf_colr_0"][i % 2]) for i in range(max(4, n // 6))]
+    cases += [fontgen.make_var_opacity_case(ctx.rng.getrandbits(32), fmt=["glyf_colr_1", "glyf_colr_0"][i % 2]) for i in range(max(4, n // 6))]
     for case in cases:
         out = fontgen.build(case)
         res.count(key=("font", stable_hash(case["id"])), nontrivial=True)
